@@ -53,6 +53,7 @@ def _smallmij(m, K, ashape):
         t.prove_paths("result_is_min_over_facets_of_clipped_functional_over_own_alpha", paths,
                       lambda p: V.R(p.value) == spec if p.kind == "return" and not isinstance(p.value, L.SArr) else False)
         t.frame_unchanged("frame:inputs-not-written", paths, ["vi", "vj", "W", "alpha"])
+        t.agree(paths, k=1)
         t.implicit()
     return _t
 
